@@ -386,3 +386,113 @@ def witness_K13_open_dict_alternative():
     s = schema.any(schema.dict({"a": schema.int, ...: ...}), schema.dict({"a": schema.int, "b": schema.int, "c": schema.int}))
     v = {"a": 1, "c": 2}
     return (not validate(s, v).has_errors()) and validate(substitute(s, v), v).has_errors()
+
+
+# ---------------------------------------------------------------------------------------------
+# K19 (C17): a NaN seed — CPython hashes a float NaN by object identity since 3.10, random.seed(nan) inherits that
+
+def class_K19_nan_seed(v):
+    return v.get("seed") == "nan"
+
+
+def witness_K19_nan_seed():
+    import os
+    import subprocess
+    import sys
+    from .common import REPO
+    code = ("import sys; sys.path.insert(0, %r); from d42 import fake, schema; from d42.generation import Random; "
+            "Random().set_seed(float('nan')); print(fake(schema.int))" % REPO)
+    outs = set()
+    for hs in ("1", "2", "3", "4"):
+        env = dict(os.environ, PYTHONHASHSEED=hs)
+        outs.add(subprocess.run([sys.executable, "-c", code], env=env, stdout=subprocess.PIPE).stdout)
+    return len(outs) > 1
+
+
+# ---------------------------------------------------------------------------------------------
+# K15 (C08 C10 C11): an int with more digits than sys.get_int_max_str_digits() cannot be rendered into a message
+
+def _digit_limit():
+    import sys
+    return getattr(sys, "get_int_max_str_digits", lambda: 0)() or 10 ** 9
+
+
+def class_K15_int_str_digit_limit(v):
+    return (int(v.get("huge_int_digits") or 0) > _digit_limit() and "ValueError" in str(v.get("exception", ""))
+            and "xceeds the limit" in str(v.get("exception", "")))
+
+
+def witness_K15_int_str_digit_limit():
+    from d42 import schema, validate_or_fail
+    from d42.declaration.errors import DeclarationError
+    H = 10 ** 5000
+    hits = 0
+    try:
+        validate_or_fail(schema.str, H)
+    except ValueError:
+        hits += 1
+    except Exception:
+        pass
+    try:
+        schema.int(H)(1)
+    except DeclarationError:
+        pass
+    except ValueError:
+        hits += 1
+    return hits > 0
+
+
+# ---------------------------------------------------------------------------------------------
+# K16 (C10 C12 C14): input nested deeper than the interpreter's recursion limit
+
+def class_K16_recursion_limit(v):
+    return int(v.get("nesting_depth") or 0) >= 900 and "RecursionError" in str(v.get("exception", ""))
+
+
+def witness_K16_recursion_limit():
+    from d42 import schema
+    try:
+        schema.str.regex("(" * 5000 + ")" * 5000)
+    except RecursionError:
+        return True
+    except Exception:
+        return False
+    return False
+
+
+# ---------------------------------------------------------------------------------------------
+# K18 (C03): a dict key hashed by identity, two or more levels down — the path holds deep COPIES of the keys
+
+def class_K18_identity_key_path(v):
+    return bool(v.get("identity_hashed_key_depth2")) and "KeyError" in str(v.get("what", ""))
+
+
+def witness_K18_identity_key_path():
+    from d42 import schema, validate
+
+    class K:
+        pass
+    k = K()
+    value = {k: {"a": "x"}}
+    errs = validate(schema.dict({k: schema.dict({"a": schema.int})}), value).get_errors()
+    cur = value
+    try:
+        for op in errs[0].path:
+            cur = op(cur)
+    except KeyError:
+        return True
+    return False
+
+
+# ---------------------------------------------------------------------------------------------
+# K14 (C16): a forwarding custom type around a UNION, placed as an alternative of a union, is not flattened
+
+def class_K14_custom_union_not_flattened(v):
+    return bool(v.get("wrapped_union_alternative_unflattened"))
+
+
+def witness_K14_custom_union_not_flattened():
+    from d42 import schema
+    from . import custom
+    u = schema.any(schema.int, schema.str)
+    return repr(schema.any(custom.wrap(u), schema.none)) != repr(schema.any(u, schema.none))
